@@ -745,4 +745,112 @@ example : Inv (HttpCache.St.empty 100) := ⟨rfl, by decide⟩
 example : (HttpCache.roundTrip HttpCache.Cfg.fixed 0 "u" (some ⟨2, "u", 60, 90⟩) ⟨[⟨1, "t", 50, 30⟩], [⟨1, "t", 50, 30⟩], 50, 100⟩).1
     = .done ⟨[⟨2, "u", 60, 90⟩], [⟨2, "u", 60, 90⟩], 60, 100⟩ := by decide
 
+
+/-! ### vcr/credential helpers run on a presentation before its signature is verified -/
+
+theorem fact_cred : Sites.credCfg = Cred.Cfg.fixed := by decide
+
+theorem cred_loop_no_panic (acc : String) (subs : List (Option String)) : ∀ s, Cred.resolveLoop Cred.Cfg.fixed acc subs ≠ .panic s := by
+  intro s
+  induction subs generalizing acc with
+  | nil => intro h; cases h
+  | cons x rest ih =>
+    cases x with
+    | none => intro h; cases h
+    | some d =>
+      unfold Cred.resolveLoop
+      split
+      · intro h; cases h
+      · exact ih d
+
+/-- ResolveSubjectDID, ParseLDProof, PresentationSigner, PresenterIsCredentialSubject never panic: any number of credentials,
+    any SubjectDID() results, any format, any kid / verification method, any number of proofs -/
+theorem cred_total (vp : Cred.VP) :
+    ∀ s, Cred.resolveSubjectDID Sites.credCfg vp.subjects ≠ .panic s ∧ Cred.parseLDProof Sites.credCfg vp ≠ .panic s ∧
+      Cred.presentationSigner Sites.credCfg vp ≠ .panic s ∧ Cred.presenterIsCredentialSubject Sites.credCfg vp ≠ .panic s := by
+  intro s
+  rw [fact_cred]
+  have h1 : Cred.resolveSubjectDID Cred.Cfg.fixed vp.subjects ≠ .panic s := cred_loop_no_panic "" vp.subjects s
+  have h2 : ∀ s, Cred.parseLDProof Cred.Cfg.fixed vp ≠ .panic s := by
+    intro s; unfold Cred.parseLDProof
+    simp only [Cred.Cfg.fixed, if_true]
+    repeat' split
+    all_goals (intro h; cases h)
+  have h3 : ∀ s, Cred.presentationSigner Cred.Cfg.fixed vp ≠ .panic s := by
+    intro s; unfold Cred.presentationSigner
+    repeat' split
+    all_goals first
+      | (intro h; cases h; done)
+      | (rename_i s' hs; exact absurd hs (h2 s'))
+      | (intro h; cases h; rename_i hs; exact absurd hs (h2 _))
+  refine ⟨h1, h2 s, h3 s, ?_⟩
+  unfold Cred.presenterIsCredentialSubject
+  split
+  · intro h; cases h
+  · rename_i s' hs; exact absurd hs (h3 s')
+  · split
+    · intro h; cases h
+    · rename_i s' hs; exact absurd hs (cred_loop_no_panic "" vp.subjects s')
+    · split <;> (intro h; cases h)
+
+theorem cred_loop_sound (c : Cred.Cfg) (subs : List (Option String)) (hne : ∀ x ∈ subs, x ≠ some "") :
+    ∀ acc d, Cred.resolveLoop c acc subs = .ok d → (∀ x ∈ subs, x = some d) ∧ (acc ≠ "" → d = acc) ∧ (subs = [] → d = acc) := by
+  induction subs with
+  | nil =>
+    intro acc d h
+    cases h
+    exact ⟨fun x hx => (nomatch hx), fun _ => rfl, fun _ => rfl⟩
+  | cons x rest ih =>
+    intro acc d h
+    cases x with
+    | none => unfold Cred.resolveLoop at h; split at h <;> cases h
+    | some y =>
+      unfold Cred.resolveLoop at h
+      split at h
+      · cases h
+      · rename_i hc
+        have hy : y ≠ "" := fun e => hne (some y) List.mem_cons_self (by rw [e])
+        obtain ⟨h1, h2, _⟩ := ih (fun x hx => hne x (List.mem_cons_of_mem _ hx)) y d h
+        have hd : d = y := h2 hy
+        refine ⟨?_, ?_, fun e => by cases e⟩
+        · intro x hx
+          rcases List.mem_cons.mp hx with e | e
+          · rw [e, hd]
+          · exact h1 x e
+        · intro ha
+          simp only [bne_iff_ne, ne_eq, Bool.and_eq_true, not_and, Decidable.not_not] at hc
+          rw [hd]; exact (hc ha).symm
+
+/-- what a non-nil answer of PresenterIsCredentialSubject guarantees (go-did's SubjectDID never returns an empty DID): the DID is
+    the signer's, and EVERY credential in the presentation has exactly that subject -/
+theorem cred_presenter_sound (vp : Cred.VP) (d : String) (hne : ∀ x ∈ vp.subjects, x ≠ some "")
+    (h : Cred.presenterIsCredentialSubject Sites.credCfg vp = .ok (some d)) :
+    Cred.presentationSigner Sites.credCfg vp = .ok d ∧ ∀ x ∈ vp.subjects, x = some d := by
+  unfold Cred.presenterIsCredentialSubject at h
+  split at h
+  · cases h
+  · cases h
+  · rename_i signer hs
+    split at h
+    · cases h
+    · cases h
+    · rename_i subj hsub
+      split at h
+      · cases h
+      · rename_i hq
+        cases h
+        have hq' : subj = d := by simpa using hq
+        subst hq'
+        exact ⟨hs, (cred_loop_sound _ vp.subjects hne "" subj hsub).1⟩
+
+/-- both guards are needed: dropping the SubjectDID error dereferences nil, `len(proofs) > 1` lets proofs[0] run on no proof -/
+theorem cred_guards_needed :
+    Cred.resolveSubjectDID ⟨false, true⟩ [some "did:x:a", none] = .panic "ResolveSubjectDID:*sid" ∧
+    Cred.presentationSigner ⟨true, false⟩ ⟨.ldp, none, true, 0, none, []⟩ = .panic "ParseLDProof:proofs[0]" ∧
+    Cred.presenterIsCredentialSubject Cred.Cfg.fixed ⟨.ldp, none, true, 0, none, []⟩ = .err "proof-count" := by decide
+
+example : Cred.presenterIsCredentialSubject Cred.Cfg.fixed ⟨.jwt, some "did:x:a#k", false, 0, some "did:x:a", [some "did:x:a", some "did:x:a"]⟩ = .ok (some "did:x:a") := by decide
+example : Cred.presenterIsCredentialSubject Cred.Cfg.fixed ⟨.jwt, some "did:x:a#k", false, 0, some "did:x:a", [some "did:x:a", some "did:x:b"]⟩ = .err "not-same-subject" := by decide
+example : Cred.presenterIsCredentialSubject Cred.Cfg.fixed ⟨.ldp, none, true, 1, some "did:x:b", [some "did:x:a"]⟩ = .ok none := by decide
+
 end Nuts.C19.Props
